@@ -105,6 +105,10 @@ func (stageComp) Corpus() [][]string {
 		{"base ?", "recover 0", "prepare a 3 0", "cut 2 recv a - - 3 b1.2.3 0 3 1.2.3 0", "observe", "recover 0", "settle 0", "observe"},
 		{"base ?", "recover 0", "prepare a 3 0", "recv a - - 3 b1.2.3 0 3 1.2.3 0", "process a 0", "cut 2 finh a 0", "observe", "recover 0", "settle 0", "observe", "status a 0 0"},
 		{"base ?", "recover 0", "prepare a 3 0", "recv a - - 3 b1.2.3 0 3 1.2.3 0", "process a 0", "cut 3 finh a 0", "observe", "recover 0", "settle 0", "observe", "status a 0 0"},
+		// a delivery known only from the log of an earlier run must be remembered also after the
+		// cache was aged, and a retransmission of it is not delivered again
+		{"base ?", "oldlog x - b1.2 2 -260000", "oldlog y - b3 1 -260000", "recover 0", "received x - - b1.2 -270000 0 2 1", "cleancache 2", "received x - - b1.2 -270000 0 2 3",
+			"prepare x 2 3", "recv x - - 2 b1.2 0 2 1.2 3", "settle 3", "observe", "status x -270000 4"},
 		// overlapping receptions of two parts of one file: both stay on record
 		{"base ?", "recover 0", "prepare f 4 0", "racerecv f - - 4 b1.2.3.4 0 2 1.2 0 ;; f - - 4 b1.2.3.4 2 3 3 0", "observe", "scan", "received f - - b1.2.3.4 0 0 2 0", "recv f - - 4 b1.2.3.4 3 4 4 0", "settle 0", "observe"},
 		// a new version completes while the validator of the old one is between hash and rename
@@ -119,6 +123,10 @@ func (stageComp) Generate(r *Rand, tier string, n int) [][]string {
 	for i := 0; i < n; i++ {
 		if i%5 == 4 {
 			cases = append(cases, genStageRace(r))
+			continue
+		}
+		if i%10 == 3 {
+			cases = append(cases, genStageCache(r))
 			continue
 		}
 		if i%2 == 1 {
@@ -477,5 +485,64 @@ func genStageRace(r *Rand) []string {
 	if r.Chance(0.3) {
 		ops = append(ops, "crash", "recover 0", "settle 0", "observe", fmt.Sprintf("status %s 0 0", esc(f.name)))
 	}
+	return ops
+}
+
+// genStageCache: deliveries known only from the receive log of an earlier run, cache loads
+// (each with its own `now`, because the code identifies a load batch by its time), cache
+// ageing, and retransmissions of such deliveries.
+func genStageCache(r *Rand) []string {
+	ops := []string{"base ?"}
+	type old struct {
+		f   *sfile
+		age int
+	}
+	var olds []old
+	for i, n := range []string{"x", "y/z", "w.nc"}[:r.Range(1, 3)] {
+		f := genFile(r, n, "")
+		age := []int{3600, 90000, 180000, 260000, 1000000}[r.Intn(5)] + i
+		olds = append(olds, old{f, age})
+		ops = append(ops, fmt.Sprintf("oldlog %s %s %s %d -%d", esc(f.name), esc(f.renamed), esc(f.hash), len(f.body), age))
+	}
+	now := 0
+	tick := func() int { now++; return now }
+	ops = append(ops, "recover 0")
+	for round := 0; round < 2; round++ {
+		for _, o := range olds {
+			if r.Chance(0.7) {
+				ft := -(o.age + r.Range(10, 5000))
+				if r.Chance(0.2) {
+					ft = -r.Range(0, o.age-1) // file time later than the logged delivery
+				}
+				ops = append(ops, fmt.Sprintf("received %s %s %s %s %d 0 %d %d", esc(o.f.name), esc(o.f.renamed), esc(o.f.prev), esc(o.f.hash), ft, o.f.cuts[1], tick()))
+			}
+			if r.Chance(0.4) {
+				ops = append(ops, fmt.Sprintf("status %s %d %d", esc(o.f.name), -(o.age + 100), tick()))
+			}
+		}
+		if r.Chance(0.8) {
+			ops = append(ops, fmt.Sprintf("cleancache %d", tick()))
+		}
+		if r.Chance(0.5) {
+			// a new file is delivered in this run
+			f := genFile(r, "n"+fmt.Sprint(round), "")
+			ops = append(ops, fmt.Sprintf("prepare %s %d %d", esc(f.name), len(f.body), tick()))
+			for k := 0; k+1 < len(f.cuts); k++ {
+				b, e := f.cuts[k], f.cuts[k+1]
+				ops = append(ops, fmt.Sprintf("recv %s %d %d %s %d", f.meta(), b, e, tokOrDash(f.body[b:e]), tick()))
+			}
+			ops = append(ops, fmt.Sprintf("settle %d", tick()))
+		}
+	}
+	// the sender retransmits an old delivery (it asks first, as handleSendError / recover do)
+	o := olds[r.Intn(len(olds))]
+	ft := -(o.age + 50)
+	ops = append(ops, fmt.Sprintf("received %s %s %s %s %d 0 %d %d", esc(o.f.name), esc(o.f.renamed), esc(o.f.prev), esc(o.f.hash), ft, o.f.cuts[1], tick()))
+	ops = append(ops, fmt.Sprintf("prepare %s %d %d", esc(o.f.name), len(o.f.body), tick()))
+	for k := 0; k+1 < len(o.f.cuts); k++ {
+		b, e := o.f.cuts[k], o.f.cuts[k+1]
+		ops = append(ops, fmt.Sprintf("recv %s %d %d %s %d", o.f.meta(), b, e, tokOrDash(o.f.body[b:e]), tick()))
+	}
+	ops = append(ops, fmt.Sprintf("settle %d", tick()), "observe", fmt.Sprintf("status %s %d %d", esc(o.f.name), ft, tick()))
 	return ops
 }
